@@ -26,7 +26,9 @@ TRIED = []
 def install_tap():
     import dateparser.date as D
 
-    orig = D.DateDataParser._get_applicable_locales
+    orig = getattr(D.DateDataParser, "_get_applicable_locales", None)
+    if orig is None:      # refactored away: the tap only annotates witnesses with the locales tried
+        return
 
     def tapped(self, date_string):
         bump("tap:_get_applicable_locales")
